@@ -1480,6 +1480,29 @@ struct Prog {
             x.cls = (uint8_t)st.edgy(8);
             x.type = (uint8_t)st.edgy(8);
             x.payload = st.bytes(4 * st.range(0, 8));
+            if (x.payload.size() >= 4 && st.chance(60)) {
+                // adversarial for checksum arithmetic (generator bias only, no oracle uses it): choose the last payload word so that the
+                // one's complement sum of everything after the 4-octet structure header lands in the top 32 values, where adding the
+                // first word (version/reserved) carries out of 16 bits
+                std::vector<uint8_t> rest;
+                auto object = [&](const IExt& o) {
+                    size_t len = 4 + o.payload.size();
+                    rest.push_back((uint8_t)(len >> 8)); rest.push_back((uint8_t)len); rest.push_back(o.cls); rest.push_back(o.type);
+                    rest.insert(rest.end(), o.payload.begin(), o.payload.end());
+                };
+                for (const IExt& o : m.iext) object(o);
+                x.payload[x.payload.size() - 2] = x.payload[x.payload.size() - 1] = 0;
+                object(x);
+                uint32_t sum = 0;
+                for (size_t k = 0; k + 1 < rest.size(); k += 2) sum += (uint32_t)rest[k] | ((uint32_t)rest[k + 1] << 8);
+                while (sum >> 16) sum = (sum & 0xffff) + (sum >> 16);
+                uint32_t target = 0xffe0 + (uint32_t)st.range(0, 31);
+                uint32_t w = (target + 0xffff - sum) % 0xffff;
+                if (w == 0 && target != sum) w = 0xffff;
+                x.payload[x.payload.size() - 2] = (uint8_t)w;
+                x.payload[x.payload.size() - 1] = (uint8_t)(w >> 8);
+                ctx.label("icmp-extension-sum-near-carry");
+            }
             ICMPExtension ext(x.cls, x.type);
             ext.payload(x.payload);
             if (m.cls == "ICMP") static_cast<ICMP&>(p).extensions().add_extension(ext);
@@ -1596,7 +1619,7 @@ struct Prog {
             Src st = s.sub();
             size_t i = st.pick(layers.size());
             unsigned kind = (unsigned)st.weighted({5, 8, 5, 7, 3, 1, 1, 2});
-            if (!listl.empty() && st.chance(25)) kind = 7;
+            if (!listl.empty() && st.chance(45)) kind = 7;
             if (kind >= 1 && kind <= 4) {
                 if (optl.empty()) kind = 0;
                 else if (model[i].oc == OC_NONE || st.chance(60)) {
